@@ -21,6 +21,9 @@ CONFIGS = {
     # the same without the hook: blobs keep the library's own 1 KiB page arithmetic (blob API tests)
     "asanpg": ("gcc", "-O1 -g -fsanitize=address,bounds -fno-sanitize-recover=bounds -fno-omit-frame-pointer -fno-common",
                "-fsanitize=address,bounds", ""),
+    # the 32-bit bash-f back end under ASan (its scratch size enters bashHash_keep / bashPrg_keep)
+    "bash32a": ("gcc", "-O1 -g -fsanitize=address,bounds -fno-sanitize-recover=bounds -fno-omit-frame-pointer -fno-common -DBEE2_VERIF -DBASH_32",
+                "-fsanitize=address,bounds", ""),
     "msan": ("clang", "-O1 -g -fsanitize=memory -fsanitize-memory-track-origins=1 -fno-omit-frame-pointer -DBEE2_VERIF",
              "-fsanitize=memory", "-DX_MSAN"),
     "w32": ("gcc", "-O2 -g -U__SIZEOF_INT128__ -fsanitize=address -fno-omit-frame-pointer -fno-common -DBEE2_VERIF",
